@@ -1,4 +1,4 @@
-package main
+package hlib
 
 import (
 	"bytes"
@@ -16,11 +16,13 @@ import (
 
 // Generic engine: run a script with the real interpreter in a fresh directory.
 // Vector: {"src": "...", "lang": "bash"|"posix", "stdin": "...", "timeout_ms": n, "params": [..],
-//          "files": {"name": "content"}}
-// Result: {"out": latin1(stdout), "err": ..., "status": n, "parse_error": "...", "run_error": "...", "timeout": bool}
-func init() { register("interp", interpEngine) }
+//
+//	"files": {"name": "content"}}
+//
+// Result: {"out": Latin1(stdout), "err": ..., "status": n, "parse_error": "...", "run_error": "...", "timeout": bool}
+func init() { Register("interp", interpEngine) }
 
-type interpVec struct {
+type InterpVec struct {
 	Src       string            `json:"src"`
 	Lang      string            `json:"lang"`
 	Stdin     string            `json:"stdin"`
@@ -30,7 +32,7 @@ type interpVec struct {
 	Env       []string          `json:"env"`
 }
 
-func latin1(b []byte) string {
+func Latin1(b []byte) string {
 	rs := make([]rune, len(b))
 	for i, c := range b {
 		rs[i] = rune(c)
@@ -38,7 +40,7 @@ func latin1(b []byte) string {
 	return string(rs)
 }
 
-func unlatin1(s string) []byte {
+func Unlatin1(s string) []byte {
 	b := make([]byte, 0, len(s))
 	for _, r := range s {
 		b = append(b, byte(r))
@@ -46,7 +48,7 @@ func unlatin1(s string) []byte {
 	return b
 }
 
-func langOf(s string) syntax.LangVariant {
+func LangOf(s string) syntax.LangVariant {
 	switch s {
 	case "posix":
 		return syntax.LangPOSIX
@@ -62,7 +64,7 @@ func langOf(s string) syntax.LangVariant {
 
 var scratchSeq int
 
-func freshDir() string {
+func FreshDir() string {
 	base := os.Getenv("VERIF_SCRATCH")
 	if base == "" {
 		base = os.TempDir()
@@ -75,7 +77,7 @@ func freshDir() string {
 	return d
 }
 
-type runResult struct {
+type RunResult struct {
 	Out        string `json:"out"`
 	Err        string `json:"err"`
 	Status     int    `json:"status"`
@@ -86,24 +88,24 @@ type runResult struct {
 	Stack      string `json:"stack,omitempty"`
 }
 
-func runScript(v interpVec) (res runResult) {
-	src := unlatin1(v.Src)
-	p := syntax.NewParser(syntax.Variant(langOf(v.Lang)))
+func RunScript(v InterpVec) (res RunResult) {
+	src := Unlatin1(v.Src)
+	p := syntax.NewParser(syntax.Variant(LangOf(v.Lang)))
 	file, err := p.Parse(bytes.NewReader(src), "")
 	if err != nil {
 		res.ParseError = err.Error()
 		res.Status = -1
 		return res
 	}
-	dir := freshDir()
+	dir := FreshDir()
 	defer os.RemoveAll(dir)
 	for name, content := range v.Files {
-		os.WriteFile(dir+"/"+name, unlatin1(content), 0o644)
+		os.WriteFile(dir+"/"+name, Unlatin1(content), 0o644)
 	}
 	var out, errb bytes.Buffer
 	env := append([]string{"PATH=/usr/local/sbin:/usr/local/bin:/usr/sbin:/usr/bin:/sbin:/bin",
 		"HOME=" + dir, "TMPDIR=" + dir, "LC_ALL=C.UTF-8", "PWD=" + dir}, v.Env...)
-	r, err := interp.New(interp.StdIO(strings.NewReader(string(unlatin1(v.Stdin))), &out, &errb),
+	r, err := interp.New(interp.StdIO(strings.NewReader(string(Unlatin1(v.Stdin))), &out, &errb),
 		interp.Dir(dir), interp.Env(expand.ListEnviron(env...)), interp.Params(append([]string{"--"}, v.Params...)...))
 	if err != nil {
 		res.RunError = "New: " + err.Error()
@@ -125,7 +127,7 @@ func runScript(v interpVec) (res runResult) {
 		defer func() {
 			if rec := recover(); rec != nil {
 				pan = rec
-				stack = trimStack(string(debugStack()))
+				stack = TrimStack(string(debugStack()))
 			}
 		}()
 		runErr = r.Run(ctx, file)
@@ -136,7 +138,7 @@ func runScript(v interpVec) (res runResult) {
 		res.Timeout = true
 		res.RunError = "Run did not return after cancellation"
 		res.Status = -3
-		res.Out, res.Err = latin1(out.Bytes()), latin1(errb.Bytes())
+		res.Out, res.Err = Latin1(out.Bytes()), Latin1(errb.Bytes())
 		return res
 	}
 	if pan != nil {
@@ -154,7 +156,7 @@ func runScript(v interpVec) (res runResult) {
 			}
 		}
 	}
-	res.Out, res.Err = latin1(out.Bytes()), latin1(errb.Bytes())
+	res.Out, res.Err = Latin1(out.Bytes()), Latin1(errb.Bytes())
 	if len(res.Err) > 600 {
 		res.Err = res.Err[:600]
 	}
@@ -162,9 +164,9 @@ func runScript(v interpVec) (res runResult) {
 }
 
 func interpEngine(raw json.RawMessage, _ []string) (any, error) {
-	var v interpVec
+	var v InterpVec
 	if err := json.Unmarshal(raw, &v); err != nil {
 		return nil, err
 	}
-	return runScript(v), nil
+	return RunScript(v), nil
 }
